@@ -143,6 +143,14 @@ CLAIMS = {
          "component; a genuine terminal conflict must raise ValueError and nothing else may. Arguments unchanged. Sampled.",
          "Trusted: the predicate/signature/DP code in vf/props/c17.py, Hypothesis; the pair->name map is read via fggs.conjunction.nonterminal_pairs and then checked.",
          "DESIGN.md section 5, C17"),
+ 'C16': ("model-based stateful testing: Hypothesis-generated operation sequences interpreted against a pool of Graph/FactorGraph/HRG/FGG objects with public-accessor snapshots before and after every call (history invariants)",
+         "Sequences of up to 40 (60) public API calls -- including calls that must be rejected: duplicate ids, 'twin' nodes/edges re-using an id with other "
+         "content, conflicting label types, terminal start symbols, wrong arity/domains, ill-shaped weights -- are applied to a pool of live objects. After "
+         "every step: structural invariants of every object, failure atomicity (a raising call changes nothing), non-interference (only the target "
+         "changes, so copies are independent, also under in-place changes of factor weights), copy == original incl. tables/domains/weights, and == is "
+         "an equivalence that separates objects differing in nodes, edges, externals, rules or start. Sampled histories; shrunk as one value.",
+         "Trusted: the snapshot/invariant code in vf/props/c16.py, Hypothesis. Graphs handed to a rule are frozen (stated precondition).",
+         "DESIGN.md section 5, C16"),
 }
 
 NOT_YET = {}   # id -> reason (filled while the framework is being built)
